@@ -189,7 +189,7 @@ def check_copy(acc: Acc, case, original, copy) -> bool:
 
 
 # ----------------------------------------------------------------------------------------------------------------------
-EDITS = ["edit-term", "edit-weight", "edit-operator", "edit-add-term", "edit-flip-output"]
+EDITS = ["edit-term", "edit-weight", "edit-operator", "edit-add-term", "edit-flip-output", "edit-flip-rule"]
 TOGGLES = ["toggle-rule", "toggle-input", "toggle-block", "toggle-output"]
 OPS = ["in-r0", "in-r1", "in-rn", "in-batch", "process", "restart", "copy"] + EDITS + TOGGLES
 
@@ -207,6 +207,9 @@ def apply_edit(engine, edit: str) -> None:
     elif edit == "edit-flip-output":  # a persistent flag change (applied twice = restored)
         ov = engine.output_variables[-1]
         ov.enabled = not ov.enabled
+    elif edit == "edit-flip-rule":
+        r = engine.rule_blocks[0].rules[-1]
+        r.enabled = not r.enabled
 
 
 def set_row(engine, name: str) -> None:
@@ -320,7 +323,7 @@ def apply_op(acc: Acc, case, w: World, op: str, check: bool = True) -> bool:
             ok = check_copy(acc, case, w.cur, c)
         w.kept, w.kept_edits = w.cur, list(w.cur_edits)
         w.cur = c
-    elif op == "edit-flip-output":
+    elif op in ("edit-flip-output", "edit-flip-rule"):
         apply_edit(w.cur, op)
         if op in w.cur_edits:
             w.cur_edits.remove(op)
